@@ -81,14 +81,20 @@ CFG = dict(
          "must be identical for min / max / arg-extrema / rank and within 1e-9 relative to the history magnitude otherwise, for all 37 "
          "entry points. nt=0 marks the empty prefix.",
     theorem_hint="Props/C06.v",
-    level_text="Proof: (i) the prefix law ts_out F body w (firstn k xs) = firstn k (ts_out F body w xs) for EVERY add-emit-remove "
-               "rolling feature, every carrier — no law of the numeric class is used, so it holds bit for bit at binary64 — both "
-               "driver bodies, every window >= 1 and cut k (covers the moment family, z-score, cov/corr, the regression-on-x and "
-               "trend families); (ii) output i of the moment family depends on the series only through the window positions "
-               "max(0,i-w+1)..=i (exactly, carrier option R), for any emit function; (iii) the same two laws for the slice-form "
-               "(fdiff) and, from their closed forms, for the extrema / arg-extrema with explicit min_periods; (iv) prefix law of "
-               "shift-like maps for n >= 0 from the positional theorems of C13. Tied to the code by relational runs on the "
-               "implementation (all cuts, bit for bit; two histories) plus the model run on every prefix.",
+    level_text="Proof (Coq, 25 theorems in Props/C06.v). (A) No look-ahead, bit for bit: the prefix law out(firstn k xs) = firstn k "
+               "(out xs) for EVERY add-emit-remove rolling feature over every carrier (no law of the numeric class is used, so it "
+               "holds at binary64 too), both driver bodies, every window >= 1 and cut k (moments, ewm, wma, z-score, cov / corr / "
+               "regression-on-x over the zipped series, trend regressions); for the slice-form drivers (fdiff) with any stateful "
+               "callback; for ts_vmin / vmax / vargmin / vargmax / vrank (integer carrier, any null dictionary) with explicit "
+               "min_periods at every cut and with omitted min_periods when prefix and series are >= w long (a refutation "
+               "witness shows the DESIGN 5.3 restriction is needed); for shift / vshift / vdiff / vpct_change with every n >= 0 (a "
+               "witness shows n < 0 reads ahead). (B) No dependence on pre-window data: two series whose windows at positions i "
+               "and j coincide give equal outputs there — exactly for min / max / arg-extrema / rank (axiom-free) and for the "
+               "stateless slice form, and in exact arithmetic (option R) for the moment, ewm, wma, cross-sum and trend "
+               "accumulators with ANY emit function (the abstraction relation of the sliding invariant determines the state). "
+               "Partial: min-max normalisation and the regression-residual statistics (index-form callbacks that re-read the "
+               "series) have no Coq prefix / window-only theorem; they are covered by the relational runs only. Tied to the code "
+               "by relational runs on the implementation (all cuts, bit for bit; two histories) plus the model run on every prefix.",
     level_note="Trusted: Coq kernel (+ Reals axioms for the window-only statements); the models of the rolling families; DESIGN 5.2 "
                "(finite bounded histories: an infinite or overflowing history poisons the accumulators forever) and 5.3 (omitted "
                "min_periods of the extrema/rank family only for len >= w).",
